@@ -122,6 +122,22 @@ func newRichDoc(c *fw.Case) *richDoc {
 		mm[i] = inner
 	}
 	doc["mm"] = mm
+	// three array levels
+	cube := make([]any, 1+c.Intn(2))
+	crid := 0
+	for i := range cube {
+		plane := make([]any, 1+c.Intn(2))
+		for j := range plane {
+			line := make([]any, c.Intn(3))
+			for k := range line {
+				line[k] = map[string]any{"rid": float64(crid), "a": float64(c.Intn(9)), "b": gen.Pick(c.R, []any{"x", "y"})}
+				crid++
+			}
+			plane[j] = line
+		}
+		cube[i] = plane
+	}
+	doc["cube"] = cube
 	doc["meta"] = map[string]any{"ip": "127.0.0.1", "n": float64(c.Intn(9))}
 	return &richDoc{doc: doc, t: t, u: u}
 }
